@@ -36,6 +36,7 @@ ATOMS = ["v", " v ", "\nv", "w x", "k=v", " k = v ", "k=\nv", "n m = v w ", "2=v
          "u=v\u00a0", "\u2009" + "4" + "\u2009=b", "\u3000w\u3000=\u00a0x y\u2009",
          # a nested construct in one argument, line-start markup characters after an inner newline in another
          "[[x]]", "m=[[x|y]]", "p=a\n b", "q=a\n* b", "a\n: b", "r=[http://e.org t]",
+         "2023=x", "1001=y", "v\n", "k=v\n",
          # names written in non-ASCII decimal digits
          "\u0662=b", "\uff13=c"]
 
@@ -85,10 +86,10 @@ def expander_view(args):
     return seen
 
 
-def parser_view(args):
+def parser_view(args, **pkw):
     ctx.start_page("Tt")
     with quiet_stdout():
-        root = ctx.parse("{{T|" + "|".join(args) + "}}")
+        root = ctx.parse("{{T|" + "|".join(args) + "}}", **pkw)
     node = root.children[0]
 
     nested_ok = set()          # keys of arguments whose own source contains a nested construct
@@ -159,6 +160,11 @@ for args in lists:
     evaluations += 1
     try:
         views = {"parser": parser_view(args), "expander": expander_view(args), "lua": lua_view(args)}
+        # the parsed node of a call that is left unexpanded in pre-expand mode exposes the same map
+        pv2 = parser_view(args, pre_expand=True)
+        if pv2 != views["parser"]:
+            fail("c14:parser-view#same-map-with-pre_expand", f"plain parse {views['parser']} but parse(pre_expand=True) {pv2}",
+                 {"args": args}, "pre-expand-view")
     except Exception as ex:
         fail("c14:views#no-exception", f"{type(ex).__name__}: {ex}", {"args": args}, type(ex).__name__)
         continue
